@@ -16,7 +16,7 @@ hooks), the spline model (face test on ordinates around its tolerance, stripping
 memory with the caller's and whether the constructor wrote into it) against real `SplineGroove`s built from lists, tuples,
 float64 arrays and views, the closed formulas against the python functions on stubs; (e) what a `Roll` keeps on the object
 between two calls (`RollTables` of PyrollModel/RollObject.lean: private attributes of `__init__`, what `reevaluate_cache`
-empties and when, pure / remembering methods, hook functions reading them; nothing at module level) - the model's run of a
+empties before resp. after the hook values are re-evaluated, pure / remembering methods, hook functions reading them; nothing at module level) - the model's run of a
 life of the object (changes + `reevaluate_cache()`, calls) is compared with a real `Roll` step by step.
 The independent oracle checks the property text on the real objects (see `_oracle_*`) - on new rolls and on USED ones: after
 every change in the life of one roll object (`_roll_life`) and on the roll of a pass that is solved again (`_pass_roll_case`).
@@ -43,7 +43,9 @@ RULE = ("(a) grooves of every parametric class (20 classes, feasible catalogue p
         "points inside the grid: nodes, nodes +- 1 ulp, uniform; (b2) 70 % of these roll OBJECTS go on living: 1..4 operations "
         "(new contact length - the grid keeps extent and size, its inner nodes move -, contact length taken away, all radii "
         "rescaled, another discretisation count, a surface_x grid given by the user / taken back, another roll on the same groove "
-        "looked at in between, a plain second query), each followed by reevaluate_cache() and a full look at the same object; "
+        "looked at in between, a plain second query, ANOTHER GROOVE mounted on the roll - the similar groove 0.4..1.8 x as large "
+        "or a groove of any class / pad angle / sample count of about that size, the roll body staying >= 1.2 x groove size - ), "
+        "each followed by ONE reevaluate_cache() and a full look at the same object (against the groove it has then); "
         "(b3) rolls inside roll passes (6 groove classes, radius / gap / groove jittered, ROLL_SURFACE_DISCRETIZATION_COUNT 2..24 or "
         "default): looked at before the first solution (40 %), after the first, second and third solution with different incoming "
         "profiles (round / square / box / diamond, 1.05..2 x as high as the pass); (c) spline polylines: symmetric and asymmetric, with and "
@@ -75,8 +77,11 @@ ASSUMPTIONS = [
     "what a Roll keeps between two calls is modelled at the level of attribute names and of WHICH data a kept value was "
     "computed from (PyrollModel/RollObject.lean); that HookHost.reevaluate_cache re-evaluates every cached hook value and that "
     "a hook value set explicitly wins over a cached one is the hook mechanism's business (C01/C02); a change of a value is "
-    "taken to be followed by reevaluate_cache() (the solver does that in every iteration); replacing roll.groove is in the "
-    "correspondence only (see notes: after ONE reevaluate_cache() min_radius still belongs to the old groove)",
+    "taken to be followed by reevaluate_cache() (the solver does that in every iteration); replacing roll.groove is in oracle, "
+    "correspondence and theorem on the repaired statement order of Roll.reevaluate_cache (memo emptied BEFORE the hook values "
+    "are re-evaluated); on the old order (after ONE reevaluate_cache() min_radius still belongs to the old groove) the theorem "
+    "excludes it and, while RESET_FIRST_REQUIRED is False, what the oracle sees there is only counted "
+    "(groove-replacement:<key>:counted-only)",
 ]
 
 RTOL = 1e-8          # see ASSUMPTIONS: rounding only, relative to the size of the object
@@ -140,8 +145,34 @@ CORPUS_SEQUENCES = [
 # ------------------------------------------------------------------------------------------------------------------
 # (T)
 # ------------------------------------------------------------------------------------------------------------------
+# `Roll.reevaluate_cache` exists in two source forms.  OLD: `super().reevaluate_cache(); self._contour_line = None` - the
+# remembered hook values are recomputed while the contour line memoised for the previous groove is still there, so after
+# `roll.groove = <another groove>; roll.reevaluate_cache()` min_radius / surface_x / surface_y belong to the OLD groove (a
+# second reevaluate_cache() repairs it).  REPAIRED: `self._contour_line = None; super().reevaluate_cache();
+# self._contour_line = None`.  Translator, model and theorems cope with every statement order (`resetsBefore` / `resetsAfter`
+# of the generated `roll_tables`); the oracle replaces the groove of a used roll on every form.  While this is False the old
+# form is accepted: what the oracle sees on it from a groove replacement to the end of that roll's life is only counted
+# (`groove-replacement:<key>:counted-only(...)`), and the theorem about groove replacements
+# (`used_roll_answers_like_a_new_one_whatever_changed`) is conditional on the generated order.  Set it to True once the repair
+# is in /repo: from then on a source that does not empty first is a broken tie (translator gap; theorem
+# `C10.roll_reset_order_as_required` stops building) and the clauses report violations with replays on any source form.
+RESET_FIRST_REQUIRED = True
+
+
 def translate(ctx):
-    ctx.c10_info = c10_depth.emit(ctx)
+    ctx.c10_info = c10_depth.emit(ctx, reset_first_required=RESET_FIRST_REQUIRED)
+
+
+def _groove_replacement_strict(ctx):
+    """are violations seen after a groove replacement reported?  Always - unless the translator positively read the OLD
+    statement order of `Roll.reevaluate_cache` (every attribute a remembering method keeps is emptied, but only AFTER the hook
+    values were re-evaluated) and the repaired one is not demanded yet (see RESET_FIRST_REQUIRED)"""
+    if RESET_FIRST_REQUIRED:
+        return True
+    rs = (getattr(ctx, "c10_info", None) or {}).get("roll_state") or {}
+    memo = [k[1] for _, k in rs.get("methods") or [] if k[0] == "memo"]
+    old_form = rs.get("reset_order") == "after" and bool(memo) and all(f in rs["resets_after"] for f in memo)
+    return not old_form
 
 
 # ------------------------------------------------------------------------------------------------------------------
@@ -182,6 +213,9 @@ def _build_groove(desc):
     import pyroll.core as pc
     with warnings.catch_warnings():
         warnings.simplefilter("ignore")
+        if desc["cls"] == "SplineGroove":
+            return pc.SplineGroove([list(p) for p in desc["points"]], classifiers=("spline",),
+                                   usable_width=desc.get("usable_width"))
         with _ConfigOverride(GROOVE_RADIUS_POINT_COUNT=desc.get("N")):
             if desc["cls"] == "GenericElongationGroove":
                 from pyroll.core.grooves.generic_elongation import GenericElongationGroove
@@ -584,11 +618,12 @@ def _oracle_roll_(ctx, desc, rdesc, g, roll, queries, symmetric_z=True, rp=None,
 # the life of ONE roll object: it is used, its data change, it is used again
 # ------------------------------------------------------------------------------------------------------------------
 ROLL_OPS = ["contact-length", "contact-length", "contact-length", "contact-length-unset", "radius", "discretization",
-            "explicit-surface-x", "surface-x-unset", "other-roll", "second-query"]
+            "explicit-surface-x", "surface-x-unset", "other-roll", "second-query", "groove", "groove"]
 # (keys stay below the 60 characters the replay file name keeps, and differ early)
 STAGE = {"contact-length": ":new-contact-length", "contact-length-unset": ":no-contact-length", "radius": ":new-radius",
          "discretization": ":new-discretization", "explicit-surface-x": ":explicit-surface-x",
-         "surface-x-unset": ":surface-x-unset", "other-roll": ":after-other-roll", "second-query": ":second-query"}
+         "surface-x-unset": ":surface-x-unset", "other-roll": ":after-other-roll", "second-query": ":second-query",
+         "groove": ":new-groove"}
 # past failures first: a contact length changed twice on the roll of a constricted box groove (the extent of the grid stays,
 # its inner nodes move), a roll that loses its contact length, one whose discretisation and radius change
 CORPUS_ROLL_LIVES = [
@@ -601,6 +636,14 @@ CORPUS_ROLL_LIVES = [
               "ops": [["contact-length-unset"], ["contact-length", 3.0], ["other-roll", 40.0], ["discretization", 12],
                       ["radius", 1.25, None], ["explicit-surface-x", [5.0, 21.5, 60.0]], ["contact-length", 11.0],
                       ["surface-x-unset"]]}},
+    # another groove is mounted on a used roll (`roll.groove = ...` + ONE reevaluate_cache()): the replay of the observation on the
+    # old statement order of Roll.reevaluate_cache (min_radius stays 92 instead of 89; surface_y holds NaN), then a shallower one
+    {"groove": {"cls": "RoundGroove", "kwargs": dict(r1=2, r2=10, depth=8, pad_angle=0), "pad_mode": "0"},
+     "roll": {"nominal_radius": 100.0, "contact_length": 20.0, "mode": "set", "nx": None, "radius_mode": "nominal_radius",
+              "ops": [["groove", {"cls": "RoundGroove", "kwargs": dict(r1=2, r2=12, depth=11, pad_angle=0), "pad_mode": "0"}, None, True],
+                      ["second-query"], ["contact-length", 31.0],
+                      ["groove", {"cls": "CircularOvalGroove", "kwargs": dict(depth=5.05, r1=7, r2=33, pad_angle=0),
+                                  "pad_mode": "0"}, None, False]]}},
 ]
 
 
@@ -620,12 +663,84 @@ def _reevaluate(roll, nx):
         _read("reevaluate_cache", roll.reevaluate_cache)
 
 
+def _scaled_desc(desc, f):
+    """the description of the similar groove: every length of `desc` multiplied by `f`"""
+    d = dict(desc)
+    if desc["cls"] == "SplineGroove":
+        d["points"] = [[float(a) * f, float(b) * f] for a, b in desc["points"]]
+        d["usable_width"] = desc["usable_width"] * f if desc.get("usable_width") else None
+        d["input"] = "list"
+    else:
+        d["kwargs"] = {k: (v if k in ANGLES or isinstance(v, bool) or not isinstance(v, (int, float)) else v * f)
+                       for k, v in desc["kwargs"].items()}
+    return d
+
+
+def _another_groove(ctx, desc, g, R, given=None):
+    """A groove to mount on a used roll in place of `g` (`R`: the roll's radius at the highest point of the groove): the similar
+    groove 0.4..0.95 / 1.05..1.8 times as large or - generic grooves, every second time - a groove of any class, pad angle and
+    sample count of about the size of the present one; shrunk where the roll body would be too thin for it (the roll stays one
+    `_make_roll` could have produced: radius at the groove bottom >= 1.2 x groove size).  -> (description, groove) or None;
+    grooves outside the hypotheses of the groove theorems are not mounted (as in `_groove_case`)."""
+    import numpy as np
+    rng = ctx.rng
+    L = _size(np.asarray(g.contour_points, dtype=float))
+    if given is not None:
+        cands = [("given", given)]
+    else:
+        cands = []
+        if desc["cls"] != "SplineGroove" and rng.random() < 0.5:
+            cands.append(("other", _random_groove_desc(rng)))
+        cands.append(("similar", _scaled_desc(desc, rng.choice([rng.uniform(0.4, 0.95), rng.uniform(1.05, 1.8)]))))
+    for how, d in cands:
+        for attempt in range(3):
+            try:
+                g2 = _build_groove(d)
+            except Exception as ex:
+                if not _in_pyroll(ex) and not isinstance(ex, ValueError):
+                    raise
+                ctx.count("groove-rejected:" + type(ex).__name__)
+                break
+            cp2 = np.asarray(g2.contour_points, dtype=float)
+            L2, ymax2 = _size(cp2), float(cp2[:, 1].max())
+            if not np.all(np.diff(cp2[:, 0]) > 0):
+                break
+            if all(hasattr(g2, n) for n in JUNCTIONS) and not _check_hypotheses(ctx, g2, L2):
+                break
+            need = ymax2 + 1.2 * L2
+            if how == "given":
+                return d, g2
+            if how == "other" and attempt == 0:
+                d = _scaled_desc(d, min(L / L2 * rng.uniform(0.6, 1.5), 0.95 * R / need))
+                continue
+            if R >= need:
+                return d, g2
+            d = _scaled_desc(d, R / need * rng.uniform(0.5, 0.95))
+    return None
+
+
+class _CountOnly:
+    """the check context with `violation` turned into a counter (what the oracle sees on the OLD statement order of
+    `Roll.reevaluate_cache` after a groove replacement: the documented observation, see RESET_FIRST_REQUIRED)"""
+
+    def __init__(self, ctx):
+        self._ctx = ctx
+
+    def __getattr__(self, name):
+        return getattr(self._ctx, name)
+
+    def violation(self, key, what, obj):
+        self._ctx.count("groove-replacement:" + key + ":counted-only(Roll.reevaluate_cache empties after the hook values)")
+
+
 def _roll_life(ctx, desc, rdesc, g, roll, batch, with_model, symmetric_z=True, extra_queries=None):
     """Everything `_oracle_roll` demands of a new roll is demanded again of the SAME object after each change of its data:
     a new contact length (the grid keeps its extent and size, its inner nodes move), no contact length any more, other radii,
     another discretisation count, a surface_x grid given by the user, the same after the value is taken back, after another
-    roll on the same groove was looked at, and simply when asked a second time.  `rdesc["ops"]` (replay, corpus) fixes the
-    operations; otherwise 1..4 are drawn and written there."""
+    roll on the same groove was looked at, simply when asked a second time, and after ANOTHER GROOVE was mounted on it
+    (`roll.groove = ...`, one `reevaluate_cache()`; everything is then demanded against the new groove; on the old statement
+    order of `Roll.reevaluate_cache` what is seen from there to the end of the life is only counted, see RESET_FIRST_REQUIRED).
+    `rdesc["ops"]` (replay, corpus) fixes the operations; otherwise 1..4 are drawn and written there."""
     import numpy as np
     from pyroll.core import Roll
     rng = ctx.rng
@@ -638,6 +753,7 @@ def _roll_life(ctx, desc, rdesc, g, roll, batch, with_model, symmetric_z=True, e
     rp = {"groove": desc, "roll": rdesc}
     cur = {k: v for k, v in rdesc.items() if k != "ops"}
     cur["explicit_x"] = False
+    strict, tainted, desc0 = _groove_replacement_strict(ctx), False, desc
     for i in range(n_ops):
         R = _current_radius(cur)
         rmin = R - ymax
@@ -696,6 +812,39 @@ def _roll_life(ctx, desc, rdesc, g, roll, batch, with_model, symmetric_z=True, e
             op = [kind, float(given[i][1]) if given is not None else rmin * 10 ** rng.uniform(-3, math.log10(0.9))]
         elif kind == "second-query":
             op = [kind]
+        elif kind == "groove":
+            new = _another_groove(ctx, desc, g, R, given=given[i][1] if given is not None else None)
+            if new is None:
+                ctx.count("roll-op:groove:none-found")
+                op, kind = ["second-query"], "second-query"
+            else:
+                desc, g = new
+                cp = np.asarray(g.contour_points, dtype=float)
+                old_rmin, ymax = rmin, float(cp[:, 1].max())
+                rmin = R - ymax
+                if given is not None:
+                    cl = given[i][2]
+                else:
+                    cl = None
+                    if cur["mode"] == "set" and cur["contact_length"] > 0.9 * rmin:
+                        cl = 0.9 * rmin * rng.uniform(0.2, 1.0)          # stays a roll that can exist
+                # the roll was in use: in three of four cases its contour line is looked at once more (as every look at the
+                # roll does) right before the other groove is mounted - what the roll remembers is then in place
+                looked = bool(given[i][3]) if given is not None and len(given[i]) > 3 else rng.random() < 0.75
+                if looked:
+                    _read("contour_line", lambda: roll.contour_line)
+                op = [kind, desc, cl, looked]
+                roll.groove = g
+                if cl is not None:
+                    roll.contact_length = float(cl)
+                    cur["contact_length"] = float(cl)
+                if cur["explicit_x"]:
+                    # the user's grid belongs to the old groove bottom: it is rescaled with the radius there
+                    roll.surface_x = np.asarray(roll.__dict__["surface_x"], dtype=float) * (rmin / old_rmin)
+                if not strict:
+                    ctx, tainted = _CountOnly(ctx), True
+                ctx.count("roll-op:groove:" + ("reported" if strict else "counted-only")
+                          + (":contour-line-read-before" if looked else ""))
         else:
             raise ValueError(f"unknown roll operation {kind!r}")
         ops.append(op)
@@ -725,11 +874,11 @@ def _roll_life(ctx, desc, rdesc, g, roll, batch, with_model, symmetric_z=True, e
             queries = _grid_queries(rng, xs, cp[:, 0], 10) if ok else []
             queries += _inside(extra_queries, xs, cp)
             grid = _oracle_roll(ctx, desc, now, g, roll, queries, symmetric_z, rp=rp_i, stage=stage)
-        if with_model and grid is not None and cur["nx"] is not None:
+        if with_model and grid is not None and cur["nx"] is not None and not tainted:
             _batch_roll(batch, desc, now, g, roll, grid, queries, rng, rp=rp_i, explicit_x=cur["explicit_x"])
-    ctx.case(["roll-life", desc.get("cls"), [rdesc.get(k) for k in RADIUS_KEYS], rdesc.get("contact_length"), rdesc.get("nx"),
-              [[o[0]] + [round(v, 9) if isinstance(v, float) else v for v in o[1:] if not isinstance(v, (list, dict))]
-               for o in ops]], nontrivial=True)
+    ctx.case(["roll-life", desc0.get("cls"), [rdesc.get(k) for k in RADIUS_KEYS], rdesc.get("contact_length"), rdesc.get("nx"),
+              [[o[0]] + [round(v, 9) if isinstance(v, float) else v.get("cls") if isinstance(v, dict) else v
+                         for v in o[1:] if not isinstance(v, list)] for o in ops]], nontrivial=True)
 
 
 # ------------------------------------------------------------------------------------------------------------------
@@ -1158,8 +1307,9 @@ def _batch_rollobj(ctx, batch, n, info):
     """Lives of ONE real roll (changes of contact length / radius = `rest`, another groove = `shape`, each followed by
     `reevaluate_cache()`; calls of `contour_line`, `surface_interpolation`, `min_radius`) against the model's run of the
     generated tables: after every step the same private attributes are non-empty, and every call is answered like a new roll
-    with the same data exactly when the model says so - which it does not after a change of the groove (see notes: the order of
-    the statements of `Roll.reevaluate_cache`).  Also: a new roll has exactly the private attributes the translator found."""
+    with the same data exactly when the model says so - which, on the OLD statement order of `Roll.reevaluate_cache` (memo
+    emptied only after the hook values were re-evaluated), it does not after a change of the groove; on the repaired order
+    (emptied before, and again after) it always does.  Also: a new roll has exactly the private attributes the translator found."""
     import numpy as np
     from pyroll.core import Roll, RoundGroove, CircularOvalGroove
     rs = info.get("roll_state")
